@@ -1,5 +1,6 @@
 # C07 - nothing is dropped or mis-assembled silently.
 import random
+import zlib
 
 import flow
 import matrix
@@ -31,12 +32,13 @@ def run(ctx):
         if quick:
             pool = rng.sample(pool, 10)
         for s in pool:
-            cells.append((mn, s, rng.randrange(2)))
+            cells.append((mn, s, zlib.crc32((mn + "|" + ",".join(s)).encode()) % 6))    # operand variant: a function of the cell, so quick cells are a subset of thorough
     for mn, s, v in cells:
         R.add(matrix.program(matrix.statement(mn, s, v)))
     if not quick:
-        for mn, s, v in rng.sample(cells, 8000):
-            R.add(matrix.program(matrix.statement(mn, s, v), bits=32))
+        for ci, (mn, s, v) in enumerate(cells):       # 32-bit mode: all 0/1-operand cells and every 7th of the others (a fixed subset)
+            if len(s) <= 1 or ci % 7 == 0:
+                R.add(matrix.program(matrix.statement(mn, s, v), bits=32))
     R.run(per_job_timeout=30)
     ver = ctx.validate("Trace_Asm", R.traces(), nproc=12)
     F = Findings()
@@ -56,6 +58,6 @@ def run(ctx):
            "statements_judged_by_isa_model": sum(i["judged"] for i in ver["info"]), "statements_unjudged": sum(i["unjudged"] for i in ver["info"]),
            "evaluations": len(R.cases), "distinct_nontrivial": st.get("silent", 0),
            "rule": "every mnemonic of the grammar's Opcode rule except data/reservation pseudo-ops (%d) x operand-list shapes enumerated by TLC (Gen_Matrix.tla: 0 operands, 16 kinds of 1 operand, %s) embedded as ORG/known:/NOP/<stmt>/after:/DW after; "
-                   "non-trivial = run that ended silently (exit 0, no diagnostic), which is where C07 speaks" % (len(mns), "seeded 10 of the 256+ two/three-operand shapes per mnemonic" if quick else "all 256 two-operand shapes and 63 three-operand shapes; 8000 seeded repeats in 32-bit mode"),
+                   "non-trivial = run that ended silently (exit 0, no diagnostic), which is where C07 speaks" % (len(mns), "seeded 10 of the 256+ two/three-operand shapes per mnemonic" if quick else "all 256 two-operand shapes and 63 three-operand shapes; a fixed subset (all 0/1-operand cells, every 7th other cell) repeated in 32-bit mode"),
            "samples": [R.cases[i]["src"] for i in (5, len(R.cases) // 2, len(R.cases) - 1)], "tlc_runs": ctx.tlc_stats[:4], "exhaustive": not quick}
     return report.finish(ctx, "C07", viol, known, other, R, cov, ASSUME)
